@@ -11,12 +11,14 @@ import (
 	"math/big"
 	"math/rand"
 	"sort"
+	"strings"
 	"testing"
 
 	"github.com/NethermindEth/juno/blockchain"
 	"github.com/NethermindEth/juno/blockchain/networks"
 	"github.com/NethermindEth/juno/core"
 	"github.com/NethermindEth/juno/core/felt"
+	"github.com/NethermindEth/juno/db"
 	"github.com/NethermindEth/juno/db/memory"
 
 	"verifharness/internal/refimpl"
@@ -51,6 +53,8 @@ type stConfig struct {
 	Versions string `json:"versions"` // "pre" | "post" | "upgrade"
 	Split    string `json:"split"`    // "model" | "single" | "merged"
 	Seed     int64  `json:"seed"`
+	Poison   bool   `json:"poison"`  // poisoning store: lent Get buffers are scribbled after the callback
+	NilMaps  bool   `json:"nilMaps"` // empty dimensions of a state diff are nil maps instead of empty maps
 }
 
 type stateInput struct {
@@ -191,46 +195,53 @@ func (s *stState) equalModel(m *stState) bool {
 	return true
 }
 
-// splitBlocks groups the behaviour's updates into blocks.
-func splitBlocks(beh []stStep, mode string) [][]stAction {
+// splitBlocks groups the behaviour's updates into blocks; restart[i] = the node is restarted (new
+// Blockchain on the same store) before block i.
+func splitBlocks(beh []stStep, mode string) (blocks [][]stAction, restart []bool) {
 	var model [][]stAction
+	var mrestart []bool
 	cur := []stAction{}
+	pending := false
 	for _, s := range beh {
-		if s.A.Name == "EndBlock" {
+		switch s.A.Name {
+		case "Restart":
+			pending = true
+		case "EndBlock":
 			model = append(model, cur)
-			cur = []stAction{}
-			continue
+			mrestart = append(mrestart, pending)
+			cur, pending = []stAction{}, false
+		default:
+			cur = append(cur, s.A)
 		}
-		cur = append(cur, s.A)
 	}
 	if len(cur) > 0 {
 		model = append(model, cur)
+		mrestart = append(mrestart, pending)
 	}
 	switch mode {
 	case "single":
-		var out [][]stAction
-		for _, b := range model {
+		for i, b := range model {
 			if len(b) == 0 {
-				out = append(out, b)
+				blocks, restart = append(blocks, b), append(restart, mrestart[i])
 			}
-			for _, a := range b {
-				out = append(out, []stAction{a})
+			for j, a := range b {
+				blocks, restart = append(blocks, []stAction{a}), append(restart, mrestart[i] && j == 0)
 			}
 		}
-		return out
+		return blocks, restart
 	case "merged":
-		var out [][]stAction
 		for i := 0; i < len(model); i++ {
 			b := append([]stAction{}, model[i]...)
-			if i+1 < len(model) && mergeable(b, model[i+1]) {
+			r := mrestart[i]
+			if i+1 < len(model) && !mrestart[i+1] && mergeable(b, model[i+1]) {
 				b = append(b, model[i+1]...)
 				i++
 			}
-			out = append(out, b)
+			blocks, restart = append(blocks, b), append(restart, r)
 		}
-		return out
+		return blocks, restart
 	}
-	return model
+	return model, mrestart
 }
 
 // a state diff cannot both deploy a contract and replace its class
@@ -247,6 +258,33 @@ func mergeable(a, b []stAction) bool {
 		}
 	}
 	return true
+}
+
+// renderDiff is a canonical rendering of a state diff (sorted), for "unchanged" comparisons.
+func renderDiff(d *core.StateDiff) string {
+	var parts []string
+	for a, m := range d.StorageDiffs {
+		for k, v := range m {
+			parts = append(parts, "s:"+a.String()+":"+k.String()+"="+v.String())
+		}
+	}
+	for a, v := range d.Nonces {
+		parts = append(parts, "n:"+a.String()+"="+v.String())
+	}
+	for a, v := range d.DeployedContracts {
+		parts = append(parts, "d:"+a.String()+"="+v.String())
+	}
+	for a, v := range d.ReplacedClasses {
+		parts = append(parts, "r:"+a.String()+"="+v.String())
+	}
+	for a, v := range d.DeclaredV1Classes {
+		parts = append(parts, "c:"+a.String()+"="+v.String())
+	}
+	for _, v := range d.DeclaredV0Classes {
+		parts = append(parts, "c0:"+v.String())
+	}
+	sort.Strings(parts)
+	return strings.Join(parts, ",")
 }
 
 func minimalSierra(seed int64) *core.SierraClass {
@@ -288,31 +326,59 @@ func runStateConfig(beh []stStep, cfg stConfig) (o *stOutcome, blocks int) {
 		}
 	}()
 	conc := newStConcrete(cfg.Seed)
-	bc := blockchain.New(memory.New(), &networks.Sepolia, blockchain.WithNewState(cfg.NewState))
-	groups := splitBlocks(beh, cfg.Split)
+	var store db.KeyValueStore = memory.New()
+	if cfg.Poison {
+		store = newPoisonStore(store)
+	}
+	bc := blockchain.New(store, &networks.Sepolia, blockchain.WithNewState(cfg.NewState))
+	groups, restarts := splitBlocks(beh, cfg.Split)
+	var rootCopies []felt.Felt // GlobalStateRoot of every block at the time Finalise returned
+	var rootPtrs []*felt.Felt  // ... and the pointer the block header kept
 	st := newStState()
 	parent := &felt.Zero
 	oldRoot := &felt.Zero
 	be := backendName(cfg.NewState)
 	one := felt.NewFromUint64[felt.Felt](1)
 	for bi, g := range groups {
-		diff := &core.StateDiff{
-			StorageDiffs: map[felt.Felt]map[felt.Felt]*felt.Felt{}, Nonces: map[felt.Felt]*felt.Felt{},
-			DeployedContracts: map[felt.Felt]*felt.Felt{}, DeclaredV1Classes: map[felt.Felt]*felt.Felt{},
-			ReplacedClasses: map[felt.Felt]*felt.Felt{}, DeclaredV0Classes: []*felt.Felt{},
-			MigratedClasses: map[felt.SierraClassHash]felt.CasmClassHash{},
+		if restarts[bi] {
+			// restart between two blocks: alternately graceful (running event filter written) and abrupt
+			if bi%2 == 0 {
+				_ = bc.WriteRunningEventFilter()
+			}
+			bc = blockchain.New(store, &networks.Sepolia, blockchain.WithNewState(cfg.NewState))
+		}
+		diff := &core.StateDiff{}
+		if !cfg.NilMaps {
+			diff = &core.StateDiff{
+				StorageDiffs: map[felt.Felt]map[felt.Felt]*felt.Felt{}, Nonces: map[felt.Felt]*felt.Felt{},
+				DeployedContracts: map[felt.Felt]*felt.Felt{}, DeclaredV1Classes: map[felt.Felt]*felt.Felt{},
+				ReplacedClasses: map[felt.Felt]*felt.Felt{}, DeclaredV0Classes: []*felt.Felt{},
+				MigratedClasses: map[felt.SierraClassHash]felt.CasmClassHash{},
+			}
 		}
 		classes := map[felt.Felt]core.ClassDefinition{}
 		for _, a := range g {
 			st.apply(a)
 			switch a.Name {
 			case "Deploy":
+				if diff.DeployedContracts == nil {
+					diff.DeployedContracts = map[felt.Felt]*felt.Felt{}
+				}
 				diff.DeployedContracts[*conc.addr[a.C]] = conc.class[a.H]
 			case "Replace":
+				if diff.ReplacedClasses == nil {
+					diff.ReplacedClasses = map[felt.Felt]*felt.Felt{}
+				}
 				diff.ReplacedClasses[*conc.addr[a.C]] = conc.class[a.H]
 			case "Nonce":
+				if diff.Nonces == nil {
+					diff.Nonces = map[felt.Felt]*felt.Felt{}
+				}
 				diff.Nonces[*conc.addr[a.C]] = felt.NewFromUint64[felt.Felt](uint64(a.N))
 			case "Write":
+				if diff.StorageDiffs == nil {
+					diff.StorageDiffs = map[felt.Felt]map[felt.Felt]*felt.Felt{}
+				}
 				m := diff.StorageDiffs[*conc.addr[a.C]]
 				if m == nil {
 					m = map[felt.Felt]*felt.Felt{}
@@ -320,10 +386,14 @@ func runStateConfig(beh []stStep, cfg stConfig) (o *stOutcome, blocks int) {
 				}
 				m[*conc.slot[a.S]] = conc.val[a.V]
 			case "Declare":
+				if diff.DeclaredV1Classes == nil {
+					diff.DeclaredV1Classes = map[felt.Felt]*felt.Felt{}
+				}
 				diff.DeclaredV1Classes[*conc.sierra[a.K]] = conc.compiled[a.X]
 				classes[*conc.sierra[a.K]] = minimalSierra(cfg.Seed + int64(len(a.K)) + int64(a.K[1]))
 			}
 		}
+		diffBefore := renderDiff(diff)
 		ver, since0140 := versionOf(cfg.Versions, bi, len(groups))
 		receipts := []*core.TransactionReceipt{}
 		block := &core.Block{
@@ -359,7 +429,25 @@ func runStateConfig(beh []stStep, cfg stConfig) (o *stOutcome, blocks int) {
 		if su.NewRoot == nil || !su.NewRoot.Equal(got) {
 			return &stOutcome{key: "state-root:stateupdate-newroot:" + be, block: bi, what: "StateUpdate.NewRoot differs from Header.GlobalStateRoot"}, bi
 		}
+		// the caller's state diff is an input: Finalise must not rewrite it
+		if now := renderDiff(diff); now != diffBefore {
+			return &stOutcome{key: "state-alias:input-diff-mutated:" + be, block: bi, what: "Finalise modified the state diff it was given",
+				expected: diffBefore, observed: now}, bi
+		}
+		rootCopies, rootPtrs = append(rootCopies, *block.GlobalStateRoot), append(rootPtrs, block.GlobalStateRoot)
 		parent, oldRoot = block.Hash, block.GlobalStateRoot
+	}
+	// retained results: the roots handed back earlier are unchanged, and the stored headers carry them
+	for i := range rootCopies {
+		if !rootPtrs[i].Equal(&rootCopies[i]) {
+			return &stOutcome{key: "state-alias:returned-root-changed:" + be, block: i, what: "the GlobalStateRoot a finalised block carried changed under later blocks",
+				expected: rootCopies[i].String(), observed: rootPtrs[i].String()}, blocks
+		}
+		h, err := bc.BlockHeaderByNumber(uint64(i))
+		if err != nil || h.GlobalStateRoot == nil || !h.GlobalStateRoot.Equal(&rootCopies[i]) {
+			return &stOutcome{key: "state-root:stored-header:" + be, block: i, what: fmt.Sprintf("stored header %d does not carry the root Finalise computed (err %v)", i, err),
+				expected: rootCopies[i].String()}, blocks
+		}
 	}
 	// the stored head and the state must read back as the model's
 	head, err := bc.HeadsHeader()
@@ -427,6 +515,7 @@ func TestStateReplay(t *testing.T) {
 	}
 	out := vh.NewResult()
 	defer out.Write()
+	defer guard(out, "TestStateReplay", nil)
 	splits := []string{"model", "single", "merged"}
 	versions := []string{"pre", "post", "upgrade"}
 	for bi, beh := range in.Behaviours {
@@ -435,7 +524,7 @@ func TestStateReplay(t *testing.T) {
 		for si, s := range beh {
 			st.apply(s.A)
 			if s.St != nil && !st.equalModel(s.St) {
-				out.Diverge(vh.Divergence{Key: "state-harness:model-projection", What: "harness state application disagrees with StateCommit.tla", Step: si,
+				diverge(out, vh.Divergence{Key: "state-harness:model-projection", What: "harness state application disagrees with StateCommit.tla", Step: si,
 					Input: stateInput{Behaviours: [][]stStep{beh}}})
 				break
 			}
@@ -451,7 +540,8 @@ func TestStateReplay(t *testing.T) {
 				sp := splits[(bi+k)%3]
 				ve := versions[(bi/3+k+int(vh.Seed()))%3]
 				for _, ns := range []bool{false, true} {
-					cfgs = append(cfgs, stConfig{NewState: ns, Versions: ve, Split: sp, Seed: vh.Seed()*7919 + int64(bi)})
+					cfgs = append(cfgs, stConfig{NewState: ns, Versions: ve, Split: sp, Seed: vh.Seed()*7919 + int64(bi),
+						Poison: (bi+k)%2 == 0, NilMaps: (bi+k)%3 == 0})
 				}
 			}
 		}
@@ -460,8 +550,13 @@ func TestStateReplay(t *testing.T) {
 			out.Done(1, nblocks)
 			out.Count("state_blocks_"+backendName(cfg.NewState), nblocks)
 			out.Count("state_runs_"+cfg.Versions+"_"+cfg.Split, 1)
+			for _, s := range beh {
+				if s.A.Name == "Restart" {
+					out.Count("state_restarts", 1)
+				}
+			}
 			if o != nil {
-				out.Diverge(vh.Divergence{Key: o.key, What: o.what, Step: o.block, Expected: o.expected, Observed: o.observed,
+				diverge(out, vh.Divergence{Key: o.key, What: o.what, Step: o.block, Expected: o.expected, Observed: o.observed,
 					Input: stateInput{Behaviours: [][]stStep{beh}, Configs: []stConfig{cfg}}})
 			}
 		}
